@@ -71,15 +71,30 @@ def run_job(job, rec):
         sig_level = max(np.abs(A @ truth).max(), 1e-300)
         y_err = sig_level * 10.0 ** rng.uniform(-3, 3) * 10.0 ** rng.uniform(-0.5, 0.5, size=nd)
         y = A @ truth + y_err * rng.normal(size=nd)
+        form = str(rng.choice(["float", "float", "float", "int", "f32"]))  # (lists are not accepted: the constructor documents and validates ndarrays)
+        if form == "int":
+            # integer-typed data, uncertainties and forward model (counts and a 0/1.. geometry matrix): the same numbers as floats
+            A = np.rint(A / max(np.abs(A).max(), 1e-300) * 9)
+            y = np.rint(y / sig_level * 50)
+            y_err = np.maximum(np.rint(y_err / sig_level * 50), 1.0)
+        elif form == "f32":
+            y = y.astype(np.float32).astype(float)
         desc = G.describe(spec)
-        rec.context = {"case": c, "shape": shape, "n_data": nd, "n_params": npar, "d": d, "spec": desc, "mean": mean_name}
+        rec.context = {"case": c, "shape": shape, "n_data": nd, "n_params": npar, "d": d, "spec": desc, "mean": mean_name, "input_form": form}
+        rec.count("forms:" + form)
         nontrivial = shape != "square" or spec[0] in ("SUM", "CP") or mean_name != "Constant"
         rec.case(digest(A, y, y_err, pos, desc, theta), nontrivial=nontrivial)
         rec.count("cases:" + shape)
         if c < 2:
             rec.sample({**rec.context, "theta": theta, "y_err_head": y_err[:3]})
 
-        inv = guarded(GpLinearInverter, y=y, y_err=y_err, model_matrix=A, parameter_spatial_positions=pos,
+        if form == "int":
+            ya, ea, Aa = y.astype(np.int64), y_err.astype(np.int64), A.astype(np.int64)
+        elif form == "f32":
+            ya, ea, Aa = y.astype(np.float32), y_err.copy(), A.copy()
+        else:
+            ya, ea, Aa = y.copy(), y_err.copy(), A.copy()
+        inv = guarded(GpLinearInverter, y=ya, y_err=ea, model_matrix=Aa, parameter_spatial_positions=pos,
                       prior_covariance_function=G.build_repo_kernel(spec), prior_mean_function=G.build_repo_mean(mean_name))
         if isinstance(inv, Raised):
             rec.violation("raised", f"constructor raised {inv!r}", rec.context)
